@@ -84,3 +84,42 @@ pub open spec fn opt_max_spec(a: Option<usize>, b: Option<usize>) -> Option<usiz
 }
 #[verifier::external_body]
 pub fn opt_max(a: Option<usize>, b: Option<usize>) -> (r: Option<usize>) ensures r == opt_max_spec(a, b) { unimplemented!() }
+
+// ---- start-up scan of the work dir ----
+#[verifier::external_body]
+pub struct PathS { _p: u8 }
+impl PathS {
+    // the blob id encoded in the file name `<prefix>.<id>.<ext>`, if the name has that shape
+    pub uninterp spec fn path_id(&self) -> Option<usize>;
+}
+pub struct FileNameS { pub id: usize }
+impl FileNameS {
+    // blob::FileName::from_path
+    #[verifier::external_body]
+    pub fn from_path(p: &PathS) -> (r: Result<FileNameS, AnyErr>)
+        ensures r.is_ok() <==> p.path_id() is Some, r.is_ok() ==> r->Ok_0.id == p.path_id()->Some_0
+    { unimplemented!() }
+    pub fn id(&self) -> (r: usize) ensures r == self.id { self.id }
+}
+#[verifier::external_body]
+pub struct BlobS { _p: u8 }
+impl BlobS {
+    pub uninterp spec fn id_spec(&self) -> usize;
+    #[verifier::external_body]
+    pub fn id(&self) -> (r: usize) ensures r == self.id_spec() { unimplemented!() }
+}
+#[verifier::external_body]
+pub struct ConfigS { _p: u8 }
+impl ConfigS {
+    pub uninterp spec fn ignore(&self) -> bool;
+    #[verifier::external_body]
+    pub fn ignore_corrupted(&self) -> (r: bool) ensures r == self.ignore() { unimplemented!() }
+    #[verifier::external_body]
+    pub fn corrupted_dir_name(&self) -> (r: ()) { unimplemented!() }
+}
+// Storage::save_corrupted_blob: rename into the corrupted-blobs directory (+ remove the index file)
+#[verifier::external_body]
+pub fn save_corrupted_blob(p: &PathS, dir: ()) -> (r: Result<(), AnyErr>) { unimplemented!() }
+pub open spec fn opt_ge(a: Option<usize>, b: Option<usize>) -> bool {
+    match (a, b) { (_, None) => true, (Some(x), Some(y)) => x >= y, (None, Some(_)) => false }
+}
